@@ -22,9 +22,12 @@ import multiprocessing as mp
 
 VERIF = "/verif"
 REPO = "/repo"
-EVID = os.path.join(VERIF, "evidence")
-REPLAYS = os.path.join(VERIF, "replays")
-WORK = os.path.join(VERIF, ".work")
+_OUT = os.environ.get("VERIF_OUT") if os.environ.get("VERIF_REPO") else None
+EVID = os.path.join(_OUT or VERIF, "evidence")
+REPLAYS = os.path.join(_OUT or VERIF, "replays")
+WORK = os.path.join(_OUT or VERIF, ".work")
+if os.environ.get("VERIF_REPO"):
+    REPO = os.environ["VERIF_REPO"]
 KNOWN = os.path.join(VERIF, "known_findings.json")
 
 DISCHARGED = "discharged"
@@ -150,6 +153,9 @@ class Ctx:
             return
         if rec["status"] == HARNESS_ERROR:
             self.harness_errors.append(rec)
+            return
+        if rec["status"] == "searched":  # bounded search without verdict: reported, not an obligation
+            self.extra.setdefault("bounded_search_only", []).append({k: rec.get(k) for k in ("name", "detail", "time_s", "bounds")})
             return
         self.records.append(rec)
 
